@@ -128,7 +128,7 @@ class Scenario:
     def store_snapshot(self):
         try:
             return sorted((repr(a), repr(s)) for o in self.objs for a, d in o.subscriptions.store.items() for s in d)
-        except AttributeError:
+        except Exception:
             return None
 
 
